@@ -59,6 +59,7 @@ type FakeSMTP struct {
 	ln   net.Listener
 	mu   sync.Mutex
 	Msgs []string
+	Rcpt []string // per message: the envelope recipients the server accepted (lower-cased, comma-separated)
 	wg   sync.WaitGroup
 }
 
@@ -92,6 +93,13 @@ func SharedSMTP() (*FakeSMTP, error) {
 }
 
 func (s *FakeSMTP) Addr() string { return s.ln.Addr().String() }
+
+// Envelopes returns, per captured message, the accepted envelope recipients.
+func (s *FakeSMTP) Envelopes() []string {
+	s.mu.Lock()
+	defer s.mu.Unlock()
+	return append([]string(nil), s.Rcpt...)
+}
 func (s *FakeSMTP) Close()       { s.ln.Close() }
 
 func (s *FakeSMTP) serve() {
@@ -109,6 +117,7 @@ func (s *FakeSMTP) handle(c net.Conn) {
 	r := bufio.NewReader(c)
 	w := func(l string) { _, _ = c.Write([]byte(l + "\r\n")) }
 	w("220 fake ESMTP")
+	var rcpt []string
 	for {
 		line, err := r.ReadString('\n')
 		if err != nil {
@@ -122,6 +131,14 @@ func (s *FakeSMTP) handle(c net.Conn) {
 			// mailboxes of the refuse.* domains bounce: the mailer's error path
 			w("550 no such mailbox")
 		case strings.HasPrefix(cmd, "MAIL"), strings.HasPrefix(cmd, "RCPT"), strings.HasPrefix(cmd, "RSET"), strings.HasPrefix(cmd, "NOOP"):
+			if strings.HasPrefix(cmd, "MAIL") || strings.HasPrefix(cmd, "RSET") {
+				rcpt = nil
+			}
+			if strings.HasPrefix(cmd, "RCPT") {
+				if i, j := strings.IndexByte(line, '<'), strings.IndexByte(line, '>'); i >= 0 && j > i {
+					rcpt = append(rcpt, strings.ToLower(line[i+1:j]))
+				}
+			}
 			w("250 ok")
 		case strings.HasPrefix(cmd, "DATA"):
 			w("354 go")
@@ -138,6 +155,7 @@ func (s *FakeSMTP) handle(c net.Conn) {
 			}
 			s.mu.Lock()
 			s.Msgs = append(s.Msgs, sb.String())
+			s.Rcpt = append(s.Rcpt, strings.Join(rcpt, ","))
 			s.mu.Unlock()
 			w("250 queued")
 		case strings.HasPrefix(cmd, "QUIT"):
